@@ -20,7 +20,7 @@ meta = {
     'demonstration': {'kind': 'rust #[test] added by demo.diff', 'tests': demo,
                       'command': 'cargo test -p lightning --offline --lib -- <test name>'},
     'confirmed_by_me': {
-        'how': 'tools_confirm_mutant.sh in a scratch worktree of /repo (original snapshot aa69558 for rounds 1-3, a2eba39 for round 4) (/tmp/mut/%s, removed afterwards): apply patch+demo, run demo (must fail), run the whole lightning lib suite with the patch (must pass), revert patch, run demo (must pass)' % prop,
+        'how': 'tools_confirm_mutant.sh in a scratch worktree of /repo (round 7: the final tree 1474601) (/tmp/mut/%s, removed afterwards): apply patch+demo, run demo (must fail), run the whole lightning lib suite with the patch (must pass), revert patch, run demo (must pass)' % prop,
         'demo_with_patch': res[0][0] if len(res) > 0 else '?',
         'lib_suite_with_patch': ('%s passed, %s failed' % (res[1][1], res[1][2])) if len(res) > 1 else '?',
         'demo_without_patch': res[2][0] if len(res) > 2 else '?'},
